@@ -171,7 +171,12 @@ func (c *Class) Evaluation(
 		parentFrame, parentNamespace, parentClass :=
 			base.SeparateNameSpaces(nextT.ToString())
 
-		if slices.Contains(base.BuiltinClasses, parentClass) && parentNamespace == "" {
+		// a class the program defines itself is not the configured class that
+		// shares its short name in some other frame
+		_, isOwnClass := base.LookupDefinedClassFrame(ctx.GetFrame(), parentClass)
+		isOwnClass = isOwnClass && parentFrame == "" && parentNamespace == ""
+
+		if !isOwnClass && slices.Contains(base.BuiltinClasses, parentClass) && parentNamespace == "" {
 			parentFrame = "Builtin"
 		} else if parentFrame == "" && parentNamespace == "" {
 			// an unqualified superclass is looked up lexically: in the enclosing
